@@ -1089,6 +1089,18 @@ ALIENS = [['obj', 'VAlien'], ['n'], ['i', 0], ['s', 'zz'], ['tuple', []], ['list
 def rejecting_leaf(draw, node, hashable=False):
     """Value AST of an object that must_reject(node), chosen from a fixed alien pool; None if none does."""
     cands = [a for a in ALIENS if (not hashable or value_hashable(a)) and must_reject(node, realize(a))]
+    if node[0] == 'lit':
+        # objects *equal* to a member but of another type (1 / 1.0 for Literal[True], 0.0 for Literal[0]): rejected by PEP 586 and
+        # by the generated check, and a trap for any code that compares with == only; first in the pool (sampled_from is biased
+        # towards its first elements in rarely taken branches)
+        twins = []
+        for lv in node[1]:
+            if lv[0] == 'b':
+                twins += [['i', int(lv[1])], ['f', float(lv[1])]]
+            elif lv[0] == 'i':
+                twins.append(['f', float(lv[1])])
+        twins = [t for i, t in enumerate(twins) if t not in twins[:i] and must_reject(node, realize(t))]
+        cands = twins + twins + cands
     if not cands:
         return None
     return draw(st.sampled_from(cands))
